@@ -33,6 +33,12 @@ def array_layout(ctx: Ctx, rule: str) -> None:
                 fl = flat_subscript(n.targets[0], venv)
                 if fl is not None and len(fl[1]) == arr_kind and fl[1][-1].isdigit():
                     got[int(fl[1][-1])] = n
+        missing = [k for k in (0, 1, 2, 3) if k not in got]
+        if missing:
+            # the rows are filled some other way (whole rows, columns, a helper that hands back an array): nothing to compare field by field
+            ctx.undecided(rule, f, None, f"{qn}: no store into field(s) {missing} of a row was found: the rows are not filled field by field (not a verdict)",
+                          construct="field layout", key="layout-shape")
+            continue
         for k in (0, 1, 2):
             n = got.get(k)
             v = expand_locals(f.node, n.value) if n is not None else None
